@@ -50,8 +50,10 @@ var (
 	idPlain, idRaw, idLz4, idSnappy int
 	idSegPlain, idSegLz4            int
 	idLz4c, idSnappyc               int
-	idMsg                           []int // parallel to message.DefaultMessageCodecs
-	idData                          []int // parallel to dataCodecs
+	// the same four LZ4 users (and snappy) again, counted separately for the big-input phase (inputs > 64 KiB)
+	idBigLz4c, idBigSnappyc, idBigFrameLz4, idBigSegLz4 int
+	idMsg                                               []int // parallel to message.DefaultMessageCodecs
+	idData                                              []int // parallel to dataCodecs
 )
 
 func init() {
@@ -69,7 +71,15 @@ func init() {
 	for _, d := range dataCodecs {
 		idData = append(idData, reg(d.name))
 	}
+	idBigLz4c = reg("lz4.Compressor[>64KiB]")
+	idBigSnappyc = reg("snappy.Compressor[>64KiB]")
+	idBigFrameLz4 = reg("frame.NewRawCodecWithCompression(lz4)[>64KiB]")
+	idBigSegLz4 = reg("segment.NewCodecWithCompression(lz4)[>64KiB]")
 }
+
+// bigLz4Inside counts the LZ4 COMPRESSIONS of inputs longer than 64 KiB that are in progress, over all
+// four paths (Compressor.CompressWithLength, Compressor.Compress, frame body, segment payload).
+var bigLz4Inside int32
 
 // ---------------------------------------------------------------------------------------------
 // calls
@@ -85,6 +95,7 @@ type call struct {
 	kind      string
 	unordered bool // result bytes depend on Go map iteration order: compare byte histograms
 	heavy     bool // see heavyBytes
+	bigLz4    bool // an LZ4 compression of more than 64 KiB: also counted in bigLz4Inside
 	fn        func() (interface{}, error)
 
 	want     interface{}
@@ -111,10 +122,16 @@ func guarded(fn func() (interface{}, error)) (res interface{}, errs string) {
 
 // exec runs the call inside the overlap counter of its shared codec and returns the overlap seen
 // on entry.
-func (cl *call) exec() (res interface{}, errs string, overlap int32) {
+func (cl *call) exec() (res interface{}, errs string, overlap, bigOverlap int32) {
 	sh := sharedList[cl.codec]
 	overlap = xadd32(&sh.inside, 1)
+	if cl.bigLz4 {
+		bigOverlap = xadd32(&bigLz4Inside, 1)
+	}
 	res, errs = guarded(cl.fn)
+	if cl.bigLz4 {
+		xadd32(&bigLz4Inside, -1)
+	}
 	xadd32(&sh.inside, -1)
 	return
 }
@@ -214,7 +231,7 @@ func (b *builder) add(codec int, op, kind string, unordered bool, fn func() (int
 // call); the bytes it produced are the input of the decode calls that follow.
 func (b *builder) addRun(codec int, op, kind string, unordered bool, fn func() (interface{}, error)) ([]byte, bool) {
 	cl := b.add(codec, op, kind, unordered, fn)
-	res, errs, _ := cl.exec()
+	res, errs, _, _ := cl.exec()
 	cl.setWant(res, errs)
 	out, _ := res.([]byte)
 	return cp(out), errs == ""
@@ -576,6 +593,137 @@ func buildCalls(seed int64, g int) []*call {
 }
 
 // ---------------------------------------------------------------------------------------------
+// big-input phase: inputs longer than 64 KiB. The library compresses those through a different LZ4
+// path (compressBlock → high-compression block compressor), which the general workload reaches
+// too rarely to overlap two of them; here nothing else runs, so they overlap all the time.
+
+const bigGoroutines = 8
+
+// bigInput: n bytes of one of three shapes, all compressible.
+func bigInput(r *mon.Rand, shape, n int) (string, []byte) {
+	switch shape % 3 {
+	case 0:
+		return "text", []byte(text(r, n))[:n]
+	case 1:
+		// records with a period of exactly 64 KiB: matches at distance 65536, the edge of the LZ4 window
+		rec := semi(r, 1<<16)
+		out := make([]byte, 0, n)
+		for len(out) < n {
+			out = append(out, rec...)
+			rec[r.Intn(len(rec))] ^= byte(1 + r.Intn(255))
+		}
+		return "period-64k", out[:n]
+	default:
+		out := r.Bytes(n)
+		copy(out[n/2:], text(r, n-n/2))
+		return "half-random", out
+	}
+}
+
+func buildBigCalls(seed int64, g int) []*call {
+	r := mon.NewRand(seed, uint64(0x200000+g))
+	b := &builder{}
+	mark := func(from int, op string) { // flag the LZ4 compressions added since `from`
+		for _, cl := range b.calls[from:] {
+			if cl.op == op {
+				cl.bigLz4 = true
+			}
+		}
+	}
+	size := func(max int) int { return 70000 + r.Intn(max-70000+1) }
+
+	// (a) lz4.Compressor CompressWithLength / DecompressWithLength
+	kind, data := bigInput(r, g, size(140<<10))
+	from := len(b.calls)
+	enc, ok := b.addRun(idBigLz4c, "CompressWithLength", kind, false, func() (interface{}, error) {
+		var out bytes.Buffer
+		err := lz4c.CompressWithLength(bytes.NewBuffer(data), &out)
+		return out.Bytes(), err
+	})
+	mark(from, "CompressWithLength")
+	if ok {
+		b.add(idBigLz4c, "DecompressWithLength", kind, false, func() (interface{}, error) {
+			var out bytes.Buffer
+			err := lz4c.DecompressWithLength(bytes.NewReader(enc), &out)
+			return out.Bytes(), err
+		})
+	}
+	// (b) lz4.Compressor Compress / Decompress (segment payload format: at most 131071 bytes)
+	kind2, data2 := bigInput(r, g+1, size(segment.MaxPayloadLength))
+	from = len(b.calls)
+	enc2, ok2 := b.addRun(idBigLz4c, "Compress", kind2, false, func() (interface{}, error) {
+		var out bytes.Buffer
+		err := lz4c.Compress(bytes.NewReader(data2), &out)
+		return out.Bytes(), err
+	})
+	mark(from, "Compress")
+	if ok2 {
+		b.add(idBigLz4c, "Decompress", kind2, false, func() (interface{}, error) {
+			var out bytes.Buffer
+			err := lz4c.Decompress(bytes.NewReader(enc2), &out)
+			return out.Bytes(), err
+		})
+	}
+	// (c) a compressed frame with a body longer than 64 KiB through the raw+lz4 frame codec
+	kind3, data3 := bigInput(r, g+2, size(140<<10))
+	q := &message.Query{Query: text(r, 100), Options: &message.QueryOptions{Consistency: primitive.ConsistencyLevelQuorum, PositionalValues: []*primitive.Value{primitive.NewValue(data3)}}}
+	f := frame.NewFrame(pick(r, v3, v4, dse1), int16(r.Intn(1<<15)), q)
+	f.SetCompress(true)
+	fkind := "QUERY/" + kind3 + "/" + vname(f.Header.Version) + "+compressed"
+	from = len(b.calls)
+	enc3, ok3 := b.addRun(idBigFrameLz4, "EncodeFrame", fkind, false, func() (interface{}, error) {
+		var buf bytes.Buffer
+		err := fcLz4.EncodeFrame(f, &buf)
+		return buf.Bytes(), err
+	})
+	mark(from, "EncodeFrame")
+	if ok3 {
+		b.add(idBigFrameLz4, "DecodeFrame", fkind, false, func() (interface{}, error) {
+			src := bytes.NewReader(enc3)
+			df, err := fcLz4.DecodeFrame(src)
+			return decoded{df, src.Len()}, err
+		})
+	}
+	// (d) a segment with a payload of 70000..131071 bytes through the lz4 segment codec
+	kind4, data4 := bigInput(r, g, size(segment.MaxPayloadLength))
+	seg := &segment.Segment{Header: &segment.Header{IsSelfContained: true}, Payload: &segment.Payload{UncompressedData: data4}}
+	from = len(b.calls)
+	res4, ok4 := b.addRun(idBigSegLz4, "EncodeSegment", kind4, false, func() (interface{}, error) {
+		var buf bytes.Buffer
+		err := scLz4.EncodeSegment(seg, &buf)
+		buf.WriteString("|" + segDump(seg))
+		return buf.Bytes(), err
+	})
+	mark(from, "EncodeSegment")
+	if ok4 {
+		enc4 := res4[:bytes.LastIndexByte(res4, '|')]
+		b.add(idBigSegLz4, "DecodeSegment", kind4, false, func() (interface{}, error) {
+			src := bytes.NewReader(enc4)
+			ds, err := scLz4.DecodeSegment(src)
+			return decoded{ds, src.Len()}, err
+		})
+	}
+	// (e) snappy with the same kind of input, for symmetry
+	kind5, data5 := bigInput(r, g+1, size(140<<10))
+	enc5, ok5 := b.addRun(idBigSnappyc, "CompressWithLength", kind5, false, func() (interface{}, error) {
+		var out bytes.Buffer
+		err := snappyc.CompressWithLength(bytes.NewBuffer(data5), &out)
+		return out.Bytes(), err
+	})
+	if ok5 {
+		b.add(idBigSnappyc, "DecompressWithLength", kind5, false, func() (interface{}, error) {
+			var out bytes.Buffer
+			err := snappyc.DecompressWithLength(bytes.NewReader(enc5), &out)
+			return out.Bytes(), err
+		})
+	}
+	for _, cl := range b.calls {
+		cl.heavy = false // nothing is thinned in this phase
+	}
+	return b.calls
+}
+
+// ---------------------------------------------------------------------------------------------
 // phase 1: sequential reference results
 
 func phase1(c *mon.Ctx, sets [][]*call, reps int) (total, unstable, seqErrors int) {
@@ -584,7 +732,7 @@ func phase1(c *mon.Ctx, sets [][]*call, reps int) (total, unstable, seqErrors in
 		for i, cl := range cs {
 			total++ // the reference run (made by the builder for encode calls, here for the others)
 			if !cl.hasWant {
-				res, errs, _ := cl.exec()
+				res, errs, _, _ := cl.exec()
 				cl.setWant(res, errs)
 			}
 			if cl.wantErr != "" {
@@ -592,7 +740,7 @@ func phase1(c *mon.Ctx, sets [][]*call, reps int) (total, unstable, seqErrors in
 				errKinds[cl.sig()+" :: "+cl.wantErr]++
 			}
 			for k := 1; k < reps; k++ {
-				r2, e2, _ := cl.exec()
+				r2, e2, _, _ := cl.exec()
 				total++
 				if !cl.same(r2, e2) {
 					cl.skip = true
@@ -628,17 +776,19 @@ func phase1(c *mon.Ctx, sets [][]*call, reps int) (total, unstable, seqErrors in
 // phase 2: M goroutines released together, R rounds each, every result compared
 
 type local struct {
-	calls []int64
-	maxOv []int32
-	n     int64
-	bad   int64
+	calls  []int64
+	maxOv  []int32
+	n      int64
+	bad    int64
+	bigMax int32
 }
 
 type stressStats struct {
-	calls []int64
-	maxOv []int32
-	n     int64
-	bad   int64
+	calls  []int64
+	maxOv  []int32
+	n      int64
+	bad    int64
+	bigMax int32 // maximum number of simultaneous LZ4 compressions of > 64 KiB inputs
 }
 
 func newStats() *stressStats {
@@ -674,7 +824,10 @@ func stress(c *mon.Ctx, label string, sets [][]*call, M, rounds, heavyEvery int,
 					if cl.heavy && heavyEvery > 1 && round > 0 && r.Intn(heavyEvery) != 0 {
 						continue
 					}
-					res, errs, ov := cl.exec()
+					res, errs, ov, bigOv := cl.exec()
+					if bigOv > lo.bigMax {
+						lo.bigMax = bigOv
+					}
 					lo.n++
 					lo.calls[cl.codec]++
 					if ov > lo.maxOv[cl.codec] {
@@ -701,6 +854,9 @@ func stress(c *mon.Ctx, label string, sets [][]*call, M, rounds, heavyEvery int,
 	for _, lo := range locals {
 		st.n += lo.n
 		st.bad += lo.bad
+		if lo.bigMax > st.bigMax {
+			st.bigMax = lo.bigMax
+		}
 		for i := range lo.calls {
 			st.calls[i] += lo.calls[i]
 			if lo.maxOv[i] > st.maxOv[i] {
